@@ -4,6 +4,7 @@
 mod engine_life;
 mod engine_miri;
 mod engine_model;
+mod engine_director;
 mod engine_hist;
 mod engine_jbytes;
 mod engine_opts;
@@ -118,6 +119,8 @@ fn main() {
         "jbytes-worker" => engine_jbytes::worker_main(&args),
         "miri-codec" => engine_miri::codec_main(&args),
         "miri-db" => engine_miri::db_main(&args),
+        "director" => engine_director::main(&args),
+        "director-replay" => engine_director::replay_main(&args),
         "trace" => engine_trace::main(&args),
         "trace-child" => engine_trace::child_main(&args),
         "trace-replay" => engine_trace::replay_main(&args),
